@@ -1,0 +1,37 @@
+//! Verification hooks. Compiled only with `--cfg mathcat_verif`; nothing here is reachable otherwise.
+//! They expose state that is not observable through the public API (so an external explorer can key and
+//! restore navigation states) and record which rules fired (coverage evidence only).
+#![allow(clippy::needless_return)]
+use std::cell::RefCell;
+
+thread_local!{
+    static RULE_TRACE_ON: RefCell<bool> = const { RefCell::new(false) };
+    static RULE_TRACE: RefCell<Vec<String>> = const { RefCell::new(Vec::new()) };
+}
+
+/// Turn recording of fired rules on/off (per thread = per session).
+pub fn verif_rule_trace(on: bool) {
+    RULE_TRACE_ON.with(|flag| *flag.borrow_mut() = on);
+    RULE_TRACE.with(|trace| trace.borrow_mut().clear());
+}
+
+/// Return and clear the list of rules that fired since the last call: "rules-for|file|tag|name".
+pub fn verif_take_rule_trace() -> Vec<String> {
+    return RULE_TRACE.with(|trace| std::mem::take(&mut *trace.borrow_mut()));
+}
+
+pub(crate) fn record_rule(rules_for: &str, file: &str, tag: &str, name: &str) {
+    if RULE_TRACE_ON.with(|flag| *flag.borrow()) {
+        RULE_TRACE.with(|trace| trace.borrow_mut().push(format!("{}|{}|{}|{}", rules_for, file, tag, name)));
+    }
+}
+
+/// Serialized navigation state: position stack, command stack, place markers, mode, speak_overview.
+pub fn verif_nav_state() -> String {
+    return crate::navigate::verif_nav_state();
+}
+
+/// Restore a state produced by [`verif_nav_state`]. Returns false if the string can't be parsed.
+pub fn verif_set_nav_state(state: &str) -> bool {
+    return crate::navigate::verif_set_nav_state(state);
+}
